@@ -5,6 +5,7 @@ import SparkxVerif.Core.QCumulant
   `corr <k> <events>`             -> `ok <<<k>>>`
   `flow <k> <imag> <events>`      -> `ok <v_n{k}>` | `ok nan`
   `dflow <k> <imag> <pevents>`    -> `ok <v'_n{k}>` | `ok nan`
+  `fc <k> <imag> <c>` / `dfc <k> <imag> <c> <d>` -> the two flow-from-cumulant decision functions alone
 -/
 namespace SparkxVerif.Drv.C11
 open SparkxVerif SparkxVerif.Proto SparkxVerif.QC
@@ -52,6 +53,16 @@ def handle : List String → String
       | some c => showFlow (flowFromCumulant root k im c)
       | none => "err value"
     | _, _, _ => "bad-op"
+  | ["fc", k, im, c] =>
+    -- `__flow_from_cumulant(cnk)` alone
+    match k.toNat?, imag? im, floatOfHex? c with
+    | some k, some im, some c => showFlow (flowFromCumulant root k im c)
+    | _, _, _ => "bad-op"
+  | ["dfc", k, im, c, d] =>
+    -- `__flow_from_cumulant_differential(cnk, dnk)` alone
+    match k.toNat?, imag? im, floatOfHex? c, floatOfHex? d with
+    | some k, some im, some c, some d => showFlow (dflow rootp k im c d)
+    | _, _, _, _ => "bad-op"
   | ["dflow", k, im, evs] =>
     match k.toNat?, imag? im, pevents? evs with
     | some k, some im, some es => if k == 2 || k == 4 then showFlow (dvn rootp k im es) else "err value"
